@@ -172,6 +172,7 @@ func c13(tier string) []*explore.Scenario {
 	if tier == "thorough" {
 		out = append(out, c13Product("unary", 2, false), c13Product("stream-in-progress", 2, true))
 	}
+	out = append(out, c01FailedWriteOlder("C13", 1))
 	out = append(out, failedCallAbandoned("C13", "recv-into-non-message", 1), failedCallAbandoned("C13", "send-unencodable", 1), failedCallAbandoned("C13", "send-non-message", 1))
 	// back-to-back deliveries
 	for _, mix := range []string{"uu", "us"} {
